@@ -716,3 +716,181 @@ def shrink(case, still_fails):
             except Exception:
                 pass
     return cur
+
+
+# ======================================================================================================
+# Oracle-only stream (added by the lead after the seeded-change round): intervals that are NOT exactly
+# representable in binary64 (0.1, 0.3, 0.7, 1.1, 7/3) and a FactoryPool whose supply equals its demand
+# exactly at a boundary.  The Coq model is ideal arithmetic over exact rationals, so these cases are not
+# replayed through it (coq_case returns None); the python oracle restates the property on the timed log:
+# one step at the start, then consecutive steps exactly one interval of virtual time apart.
+# ======================================================================================================
+FLOAT_ITVS = [0.1, 0.3, 0.7, 1.1, 7 / 3, 0.05]
+_base = {"gen_cases": gen_cases, "run_impl": run_impl, "oracle": oracle, "nontrivial": nontrivial,
+         "coq_case": coq_case, "distribution": distribution, "shrink": shrink}
+
+
+class _Stop(BaseException):
+    pass
+
+
+def _fperiod_cases(rng, k):
+    yield {"svc": "fperiod", "which": "factory_equal", "itv": 1.0, "nper": 4, "env": []}
+    for i in range(k):
+        yield {"svc": "fperiod", "which": ["linear", "relative", "switch", "stepwise"][i % 4],
+               "itv": rng.choice(FLOAT_ITVS), "nper": rng.choice([12, 40, 120]), "env": []}
+
+
+def gen_cases(rng, n):                                      # noqa: F811
+    for c in _base["gen_cases"](rng, n):
+        yield c
+    for c in _fperiod_cases(rng, max(8, n // 12)):
+        yield c
+
+
+def _run_fperiod(case):
+    import trio
+    import trio.testing
+    from cobald.interfaces import Pool, Controller
+    times = []
+    itv, nper = case["itv"], case["nper"]
+    limit = 20 * nper + 50
+
+    class P(Pool):
+        supply, utilisation, allocation = 10.0, 0.0, 0.0      # utilisation below every threshold: a write each step
+
+        def __init__(self):
+            self._d = 1000.0
+
+        @property
+        def demand(self):
+            return self._d
+
+        @demand.setter
+        def demand(self, v):
+            times.append(trio.current_time())
+            self._d = v
+            if len(times) > limit:
+                raise _Stop()
+
+    pool = P()
+    which = case["which"]
+    if which == "factory_equal":
+        from cobald.composite.factory import FactoryPool
+        made = []
+
+        class Child(Pool):
+            def __init__(self, d):
+                self._s, self._d = d, d
+            supply = property(lambda self: self._s)
+            utilisation = property(lambda self: 1.0)
+            allocation = property(lambda self: 1.0)
+            demand = property(lambda self: self._d, lambda self, v: setattr(self, "_d", v))
+
+        def factory():
+            made.append(trio.current_time())
+            return Child(1.0)
+        kids = [Child(1.0), Child(1.0), Child(1.0)]
+        svc = FactoryPool(*kids, factory=factory, interval=itv)
+        svc.demand = 3.0
+
+        async def env():
+            await trio.sleep(itv / 2)
+            kids[0].demand = 0        # a child disables itself but keeps reporting its supply
+    else:
+        if which == "linear":
+            from cobald.controller.linear import LinearController
+            svc = LinearController(pool, low_utilisation=0.5, high_allocation=0.5, rate=1, interval=itv)
+        elif which == "relative":
+            from cobald.controller.relative_supply import RelativeSupplyController
+            svc = RelativeSupplyController(pool, interval=itv)
+        elif which == "stepwise":
+            from cobald.controller.stepwise import Stepwise
+            svc = Stepwise(pool, lambda p, i: p.demand - 1, interval=itv)
+        else:
+            from cobald.controller.switch import DemandSwitch
+            from cobald.controller.linear import LinearController
+            svc = DemandSwitch(pool, LinearController(None, rate=1), interval=itv)
+
+        async def env():
+            return None
+    T = nper * itv + itv / 2
+    out = {"which": which}
+
+    async def main():
+        t0 = trio.current_time()
+        out["t0"] = t0
+        with trio.move_on_after(T):
+            async with trio.open_nursery() as n:
+                n.start_soon(env)
+                await svc.run()
+    try:
+        trio.run(main, clock=trio.testing.MockClock(autojump_threshold=0))
+    except _Stop:
+        out["runaway"] = True
+    except BaseException as e:  # noqa
+        def leaves(x):
+            return [y for z in x.exceptions for y in leaves(z)] if isinstance(x, BaseExceptionGroup) else [x]
+        if any(isinstance(x, _Stop) for x in leaves(e)):
+            out["runaway"] = True
+        else:
+            out["raised"] = "%s: %s" % (type(e).__name__, e)
+    if which == "factory_equal":
+        out["made"] = [t - out.get("t0", 0) for t in made]
+        out["hatchery"] = sorted(c.demand for c in svc._hatchery)
+    out["times"] = [t - out.get("t0", 0) for t in times]
+    return out
+
+
+def _oracle_fperiod(case, res):
+    if "harness_error" in res:
+        return [(None, "harness error: " + res["harness_error"])]
+    if res.get("raised"):
+        return [(None, "raises: periodic service raised on a well-behaved pool: %s" % res["raised"])]
+    itv, nper = case["itv"], case["nper"]
+    if case["which"] == "factory_equal":
+        v = []
+        if not any(abs(t - itv) < 1e-9 for t in res["made"]):
+            v.append((None, "period: FactoryPool made no adjustment at the first boundary although a child had "
+                            "disabled itself (supply == demand there); factory calls at %s" % res["made"]))
+        return v
+    ts = res["times"]
+    if res.get("runaway"):
+        return [(None, "period: %s controller with interval %r performed %d steps in %d periods (spinning)"
+                 % (case["which"], itv, len(ts), nper))]
+    v = []
+    if not ts or abs(ts[0]) > 1e-12:
+        v.append((None, "first step: %s did not regulate at its start (first step at %r)" % (case["which"], ts[:1])))
+    for a, b in zip(ts, ts[1:]):
+        if abs((b - a) - itv) > 1e-9 * max(1.0, itv):
+            v.append((None, "period: %s steps %r apart with interval %r (at t=%r)" % (case["which"], b - a, itv, a)))
+            break
+    if abs(len(ts) - (nper + 1)) > 1:
+        v.append((None, "count: %s made %d steps in %d periods of %r" % (case["which"], len(ts), nper, itv)))
+    return v
+
+
+def run_impl(case):                                         # noqa: F811
+    return _run_fperiod(case) if case["svc"] == "fperiod" else _base["run_impl"](case)
+
+
+def oracle(case, res):                                      # noqa: F811
+    return _oracle_fperiod(case, res) if case["svc"] == "fperiod" else _base["oracle"](case, res)
+
+
+def nontrivial(case, res):                                  # noqa: F811
+    return len(res.get("times", [])) >= 2 if case["svc"] == "fperiod" else _base["nontrivial"](case, res)
+
+
+def coq_case(case, res):                                    # noqa: F811
+    return None if case["svc"] == "fperiod" else _base["coq_case"](case, res)
+
+
+def distribution(results):                                  # noqa: F811
+    d = _base["distribution"]([r for r in results if r[0]["svc"] != "fperiod"])
+    d["float_interval_stream"] = sum(1 for r in results if r[0]["svc"] == "fperiod")
+    return d
+
+
+def shrink(case, still_fails):                              # noqa: F811
+    return case if case["svc"] == "fperiod" else _base["shrink"](case, still_fails)
